@@ -73,6 +73,8 @@ struct Sched {
 }
 
 static SCHED: Mutex<Option<Sched>> = Mutex::new(None);
+static SPIN_UNREGISTERED: std::sync::atomic::AtomicU64 = std::sync::atomic::AtomicU64::new(0);
+static SPIN_EXITING: std::sync::atomic::AtomicU64 = std::sync::atomic::AtomicU64::new(0);
 static CV: Condvar = Condvar::new();
 
 thread_local! {
@@ -108,6 +110,7 @@ fn finish_execution(s: &Sched, outcome: &str, detail: Value) -> ! {
         "detail": detail,
         "choices": s.choices.iter().map(|c| json!([c.enabled, c.chosen, c.current_enabled])).collect::<Vec<_>>(),
         "steps": s.steps,
+        "spins": [SPIN_UNREGISTERED.load(std::sync::atomic::Ordering::Relaxed), SPIN_EXITING.load(std::sync::atomic::Ordering::Relaxed)],
         "trace": if s.record_trace { s.trace.iter().map(|(t, l)| format!("{t}:{l}")).collect::<Vec<_>>() } else { vec![] },
     });
     let text = serde_json::to_string(&v).unwrap();
@@ -250,11 +253,13 @@ pub fn block_until(label: &'static str, cond: &mut dyn FnMut() -> bool) {
         };
         let Some(me) = my_id(s) else {
             drop(g);
+            SPIN_UNREGISTERED.fetch_add(1, std::sync::atomic::Ordering::Relaxed);
             std::thread::yield_now();
             continue;
         };
         if matches!(s.threads[me].status, Status::Exiting) {
             drop(g);
+            SPIN_EXITING.fetch_add(1, std::sync::atomic::Ordering::Relaxed);
             std::thread::yield_now();
             continue;
         }
@@ -442,6 +447,10 @@ pub fn run_one(cfg: &Config, prefix: &[u8], body: &(dyn Fn() -> String + Sync)) 
     let mut fds = [0_i32; 2];
     // SAFETY: plain pipe creation.
     assert_eq!(unsafe { libc::pipe(fds.as_mut_ptr()) }, 0, "pipe");
+    // Runners of one check share their parent, so `slot + parent pid` keeps them on distinct
+    // processors while different checks running at the same time do not all pile onto 0..n.
+    // SAFETY: plain libc call.
+    let cpu_offset = unsafe { libc::getppid() } as usize;
     // SAFETY: the runner process is single-threaded at this point (documented requirement).
     let pid = unsafe { libc::fork() };
     assert!(pid >= 0, "fork failed");
@@ -461,8 +470,8 @@ pub fn run_one(cfg: &Config, prefix: &[u8], body: &(dyn Fn() -> String + Sync)) 
                 if libc::sched_getaffinity(0, size_of::<libc::cpu_set_t>(), &mut allowed) == 0 {
                     let cpus: Vec<usize> = (0..libc::CPU_SETSIZE as usize).filter(|&i| libc::CPU_ISSET(i, &allowed)).collect();
                     if !cpus.is_empty() {
-                        let slot = std::env::var("VERIF_JOB_SLOT").ok().and_then(|v| v.parse::<usize>().ok()).unwrap_or(libc::getppid() as usize);
-                        let pick = cpus[slot % cpus.len()];
+                        let slot = std::env::var("VERIF_JOB_SLOT").ok().and_then(|v| v.parse::<usize>().ok()).unwrap_or(0);
+                        let pick = cpus[(slot + cpu_offset) % cpus.len()];
                         let mut one: libc::cpu_set_t = std::mem::zeroed();
                         libc::CPU_SET(pick, &mut one);
                         libc::sched_setaffinity(0, size_of::<libc::cpu_set_t>(), &one);
@@ -531,7 +540,20 @@ pub fn run_one(cfg: &Config, prefix: &[u8], body: &(dyn Fn() -> String + Sync)) 
             }
         }
     }
+    let mut stuck_info = String::new();
     if stuck {
+        // Diagnostics for an engine-level hang: what is every thread of the child doing?
+        if let Ok(rd) = std::fs::read_dir(format!("/proc/{pid}/task")) {
+            for e in rd.flatten() {
+                let t = e.path();
+                let comm = std::fs::read_to_string(t.join("comm")).unwrap_or_default();
+                let stat = std::fs::read_to_string(t.join("stat")).unwrap_or_default();
+                let state = stat.rsplit(')').next().unwrap_or("").split_whitespace().next().unwrap_or("?").to_string();
+                let sysc = std::fs::read_to_string(t.join("syscall")).unwrap_or_default();
+                let wchan = std::fs::read_to_string(t.join("wchan")).unwrap_or_default();
+                stuck_info.push_str(&format!("[{} state={} wchan={} syscall={}] ", comm.trim(), state, wchan.trim(), sysc.split_whitespace().take(2).collect::<Vec<_>>().join(",")));
+            }
+        }
         // SAFETY: kill our own child.
         unsafe { libc::kill(pid, libc::SIGKILL) };
     }
@@ -557,6 +579,9 @@ pub fn run_one(cfg: &Config, prefix: &[u8], body: &(dyn Fn() -> String + Sync)) 
             } else {
                 Err(String::new())
             };
+            if std::env::var_os("VSCHED_DEBUG").is_some() {
+                eprintln!("vsched: exec outcome={} steps={} spins={} wall={:?}", outcome, v["steps"], v["spins"], start.elapsed());
+            }
             ExecResult {
                 prefix: prefix.to_vec(),
                 outcome,
@@ -570,7 +595,7 @@ pub fn run_one(cfg: &Config, prefix: &[u8], body: &(dyn Fn() -> String + Sync)) 
         None => ExecResult {
             prefix: prefix.to_vec(),
             outcome: if stuck { "stuck".into() } else { "crashed".into() },
-            detail: json!({"wait_status": status, "bytes": buf.len()}),
+            detail: json!({"wait_status": status, "bytes": buf.len(), "threads": stuck_info}),
             observation: Err(String::new()),
             choices: Vec::new(),
             steps: 0,
@@ -686,6 +711,9 @@ pub fn check_determinism(cfg: &Config, prefix: &[u8], body: &(dyn Fn() -> String
     c.record_trace = true;
     let a = run_one(&c, prefix, body);
     let b = run_one(&c, prefix, body);
+    if a.outcome == "stuck" || b.outcome == "stuck" {
+        return Err(format!("an execution did not finish within {:?}: A {} {} / B {} {}", c.exec_timeout, a.outcome, a.detail, b.outcome, b.detail));
+    }
     if a.trace != b.trace || a.observation != b.observation || a.outcome != b.outcome {
         return Err(format!(
             "nondeterministic harness: same schedule, different executions\n  A: {} {:?} {:?}\n  B: {} {:?} {:?}",
